@@ -589,9 +589,10 @@ class ID3FramesSpec(Spec):
     def read(self, header, frame, data):
         from ._tags import ID3Tags
 
-        if header.version < header._V24 and header.f_unsynch:
-            # The whole tag has already been unsynch decoded at this point,
-            # so don't decode the sub-frames a second time
+        if header.f_unsynch:
+            # The tag (<= 2.3) or the enclosing frame (2.4) has already been
+            # unsynch decoded at this point, so don't decode the sub-frames
+            # a second time because of the tag-level flag
             header = copy.copy(header)
             header._flags &= ~0x80
 
